@@ -26,7 +26,7 @@ def o_swallowed(prog, lines):
 
 
 PANIC_PROFILE = {"objs": {"atomic": (1, 1), "mutex": (1, 2)},
-                 "weights": {"atomic": 3, "yield": 2, "lock": 5, "panic": 2},
+                 "weights": {"atomic": 3, "yield": 2, "lock": 5, "panic": 2, "randpanic": 3},
                  "min_tasks": 1, "extra_tasks": 2, "min_ops": 1, "extra_ops": 4}
 
 
@@ -83,7 +83,23 @@ def run(tier, seed):
             bounded.append(l)
     res["panic_streams_continue_after"] = run_stream("c12_panic_b", bounded, "trace")
     bad += kernelprop.apply_oracle(res, o_swallowed)
-    if (rc2 != 0 or diffs or rc3 not in (0, 1)) and not bad:
+    # ---- "replaying it reproduces the same failure": every failing execution of the panic streams (many of them depend
+    # on shuttle::rand draws and are not the first execution of their run) is replayed from its recorded schedule
+    from props.c01 import replay_stream
+    fails = {"panic_streams": dict(res["panic_streams"])}
+    rl, meta = replay_stream(fails, rng, tier, per_prog=3, only_failing=True)
+    rp = run_stream("c12_replay", rl, "trace")
+    res["replay_of_failures"] = rp
+    for nm in rp["names"]:
+        sname, n, e = meta[nm]
+        ex = executions(rp["impl"].get(nm, []))
+        want = e["end"] or ""
+        got = (ex[0]["end"] or "") if len(ex) == 1 else f"<{len(ex)} executions>"
+        if got != want:
+            bad.append((f"replaying the schedule of a failing execution does not reproduce its failure: recorded `{want[:90]}`, replayed `{got[:90]}`",
+                        {"kind": "program", "program": rp["progs"][nm], "original": fails[sname]["progs"][n]}, "C12:replay-differs"))
+    known_sigs = {k.get("signature") for k in c.known if k.get("status") == "known"}
+    if (rc2 != 0 or diffs or rc3 not in (0, 1)) and not [b for b in bad if b[2] not in known_sigs]:
         c.violation_noinput(f"model and implementation disagree on the emission lines: {(diffs or [cerr[-200:]])[0][:300]}",
                             "correspondence C12 process-history sweep (shuttle_model c12 fixed vs vh_c12 sweep)")
     c.cov["samples"] = [{"spec_lines": open(impl_f).read().splitlines()[:4] if os.path.exists(impl_f) else []}]
